@@ -46,7 +46,12 @@ type IndCase struct {
 }
 
 func genK(t *rapid.T) int {
+	// mostly moderate factors; a third of the draws use large ones (a currency unit a billion
+	// times larger or smaller), which is where absolute epsilons and cent-sized constants show
 	k := rapid.IntRange(1, 8).Draw(t, "k")
+	if rapid.IntRange(0, 2).Draw(t, "large") == 0 {
+		k = rapid.IntRange(9, 30).Draw(t, "klarge")
+	}
 	if rapid.Bool().Draw(t, "neg") {
 		return -k
 	}
